@@ -8,7 +8,7 @@ Definition ek (z : Z) : endkind := match z with 0%Z => KClose | 1%Z => KCloseErr
 Definition onestep (c : ccfg) (s : cst) (l : clab) : cst := match cstep c s l with Some s' => s' | None => s end.
 
 (* ops: 0 id x = DATA frame arrives; 1 id k = end frame arrives; 2 id = new(id); 3 id = drop;
-        4 id = receive() by thread 0 (get, and put back + raise if it was the ENDMARKER); 5 id w = setcallback; 6 = the receiver's epilogue *)
+        4 id = receive() by thread 0 (get, and put back + raise if it was the ENDMARKER); 5 id w = setcallback; 6 = the receiver's epilogue; 7 id = close() *)
 Fixpoint run_ops (c : ccfg) (fuel : nat) (ops : list Z) (s : cst) : cst :=
   match fuel with
   | O => s
@@ -20,6 +20,7 @@ Fixpoint run_ops (c : ccfg) (fuel : nat) (ops : list Z) (s : cst) : cst :=
     | 3%Z :: id :: r => run_ops c f r (onestep c s (LDrop (Z.to_nat id)))
     | 4%Z :: id :: r => run_ops c f r (onestep c (onestep c s (LGet 0 (Z.to_nat id))) (LReput 0))
     | 6%Z :: r => run_ops c f r (onestep c s LFinish)
+    | 7%Z :: id :: r => run_ops c f r (onestep c s (LClose (Z.to_nat id)))
     | 5%Z :: id :: w :: r => run_ops c f r (onestep c s (LSetCb (Z.to_nat id) (negb (w =? 0)%Z)))
     | _ => s
     end
